@@ -318,7 +318,7 @@ class Interp:
             if name == "value":
                 return self.models.enum_value(self, v)
             if name == "name":
-                return SStr("enum-name")
+                return SStr("enum_name", [v, ""])
             if name == "__class__":
                 return v.cls
             r = self.lookup_class_attr(v.cls, name)
